@@ -135,19 +135,19 @@ class Ctx:
 
     def pool(self):
         if self._pool is None:
-            self._pool = mp.get_context('fork').Pool(self.jobs)
+            from . import parallel
+            self._pool = parallel.Pool(self.jobs, _call)
         return self._pool
 
     def close(self):
         if self._pool is not None:
-            self._pool.terminate()
-            self._pool.join()
+            self._pool.close()
             self._pool = None
 
     # ---------------------------------------------------------- exploration
     def explore(self, name, fnpath, cases, *, engine='E1', rule='',
                 time_cap=None, chunksize=None, serial=False, exhaustive=True,
-                keyfn=None):
+                keyfn=None, case_timeout=None):
         """Run ``fn(case)`` for every case (fork pool), aggregate.
 
         ``fn`` returns a dict with optional keys ``viol`` (list of dicts with
@@ -170,12 +170,22 @@ class Ctx:
         if not cases:
             return results
         args = [(fnpath, c) for c in cases]
+        deadline = t0 + time_cap if time_cap else None
         if serial or self.jobs == 1 or len(cases) == 1:
-            it = map(_call, args)
+            def it_serial():
+                for i, a in enumerate(args):
+                    if deadline and time.time() > deadline:
+                        return
+                    yield i, _call(a)
+            it = it_serial()
         else:
             cs = chunksize or max(1, min(64, len(cases) // (self.jobs * 8)))
-            it = self.pool().imap(_call, args, chunksize=cs)
-        for i, res in enumerate(it):
+            it = self.pool().imap(args, chunksize=cs, deadline=deadline,
+                                  case_timeout=case_timeout or
+                                  max(300, 2*(time_cap or 0)))
+        nseen = 0
+        for i, res in it:
+            nseen += 1
             results[i] = res
             part['run'] += 1
             part['transitions'] += int(res.get('transitions', 1))
@@ -191,15 +201,12 @@ class Ctx:
                 part['samples'].append(jsonable(cases[i]))
             for v in res.get('viol') or []:
                 self._violation(name, fnpath, cases[i], v, part)
-            if time_cap and time.time() - t0 > time_cap and i+1 < len(cases):
-                part['cap_hit'] = True
-                part['exhaustive'] = False
-                self.cap_hit = True
-                self.log(f"{name}: time cap {time_cap}s hit after {i+1} of "
-                         f"{len(cases)} cases")
-                if not (serial or self.jobs == 1 or len(cases) == 1):
-                    self.close()
-                break
+        if nseen < len(cases):
+            part['cap_hit'] = True
+            part['exhaustive'] = False
+            self.cap_hit = True
+            self.log(f"{name}: time cap {time_cap}s hit after {nseen} of "
+                     f"{len(cases)} cases")
         part['wall_s'] += time.time() - t0
         self.log(f"{name}: {part['run']}/{part['cases']} cases, "
                  f"{part['violations']} violations, {part['known']} known, "
